@@ -32,9 +32,9 @@ def fail(section, what, **kw):
 # ------------------------------------------------------------------------------ C19 / C12
 def section_index():
     global cases
-    entries_fin = [0, 1, -1, slice(None), slice(0, 2), [0, 1], [1, 0], [1, 1]]
-    entries_inf = [0, 2, slice(None, 3), slice(1, 3), slice(None, 3, 2), [0, 2], [2, 0], [1, 1], [3]]
-    bad_inf = [-1, slice(None), slice(None, -1), [-1, 1], slice(-1, 2)]
+    entries_fin = [0, 1, -1, slice(None), slice(0, 2), [0, 1], [1, 0], [1, 1], np.int64(1)]
+    entries_inf = [0, 2, slice(None, 3), slice(1, 3), slice(None, 3, 2), [0, 2], [2, 0], [1, 1], [3], np.int64(2), [], slice(np.int64(1), np.int64(3))]
+    bad_inf = [-1, slice(None), slice(None, -1), [-1, 1], slice(-1, 2), np.int64(-1), slice(np.int64(-2), 3), slice(None, np.int64(-1)), np.array([0, -1])]
     BOX = 5
     for shape, ninf in (((2,), 1), ((2,), 2), ((2, 3), 1), ((), 1), ((2, 3), 2)):
         def is_zero(idx):
@@ -56,6 +56,10 @@ def section_index():
             addr[idx] = tuple(int(i) for i in idx)
         fin_choices = [entries_fin if d > 1 else [0, slice(None)] for d in shape]
         for item in itertools.product(*fin_choices, *([entries_inf] * ninf)):
+            try:
+                exp = dense[item]
+            except IndexError:
+                continue      # two lists that numpy cannot broadcast against each other: not a valid index expression
             cases += 1
             s, log = mk()
             try:
@@ -63,7 +67,6 @@ def section_index():
             except Exception as e:
                 fail("index", "valid index raised", shape=shape, item=item, error=e)
                 continue
-            exp = dense[item]
             want_addr = set(np.atleast_1d(np.asarray(addr[item], dtype=object)).ravel().tolist()) if not isinstance(addr[item], tuple) else {addr[item]}
             if set(log) != want_addr:
                 fail("index", "evaluated set differs from the addressed set", shape=shape, item=item, evaluated=sorted(set(log)), addressed=sorted(want_addr))
@@ -87,6 +90,51 @@ def section_index():
             s[item]
             if len(log) != n0:
                 fail("index", "cached elements re-evaluated on a repeated request", shape=shape, item=item)
+        # finite-dimension-only indices: a view (BlockSeries over the remaining finite shape numpy gives) with the same elements, evaluated through the parent once
+        if shape:
+            fin_view = [entries_fin + [[1, 0, 1], np.int64(1)] if d > 1 else [0, slice(None), [0]] for d in shape]
+            if len(shape) == 2:
+                fin_view[1] = fin_view[1] + [[2, 0], [1, 1, 0]]
+            for item in itertools.product(*fin_view):
+                try:
+                    vshape = np.empty(shape)[item].shape
+                except IndexError:
+                    continue      # broadcast mismatch between two lists: numpy rejects it, nothing to compare
+                cases += 1
+                s, log = mk()
+                try:
+                    view = s[item]
+                    if not isinstance(view, BlockSeries):
+                        fail("index", "finite-only index did not give a BlockSeries view", shape=shape, item=item, got=type(view))
+                        continue
+                    if tuple(view.shape) != tuple(vshape) or view.n_infinite != ninf:
+                        fail("index", "view has the wrong shape (numpy shape of the finite part expected)", shape=shape, item=item, got=(view.shape, view.n_infinite), want=(vshape, ninf))
+                        continue
+                    if log:
+                        fail("index", "creating a view evaluated elements", shape=shape, item=item, evaluated=log)
+                    sub = dense[item]       # shape vshape + (BOX,) * ninf
+                    sub_addr = addr[item]
+                    for vidx in np.ndindex(*vshape):
+                        for orders in itertools.product(range(3), repeat=ninf):
+                            g = view[tuple(vidx) + orders]
+                            e = sub[tuple(vidx) + orders] if isinstance(sub, np.ndarray) else sub
+                            if not (g is e or (e is not zero and g is not zero and g == e)):
+                                fail("index", "view element differs from the element of the parent", shape=shape, item=item, at=tuple(vidx) + orders, got=g, want=e)
+                    if len(log) != len(set(log)):
+                        fail("index", "an element was evaluated more than once through a view", shape=shape, item=item, evaluated=log)
+                    # slicing the view in its infinite part gives what the dense sub-array gives
+                    if vshape:
+                        whole = view[(slice(None),) * len(vshape) + (slice(None, 3),) * ninf]
+                        exp = sub[(slice(None),) * len(vshape) + (slice(None, 3),) * ninf]
+                        if not isinstance(whole, np.ma.MaskedArray) or whole.shape != exp.shape:
+                            fail("index", "slice of a view is not a masked array of the numpy shape", shape=shape, item=item, got=getattr(whole, "shape", type(whole)), want=exp.shape)
+                        else:
+                            for pos in np.ndindex(*exp.shape):
+                                e, g = exp[pos], whole[pos]
+                                if (e is zero) != (g is np.ma.masked) or (e is not zero and g != e):
+                                    fail("index", "wrong entry in a slice of a view", shape=shape, item=item, pos=pos, got=g, want=e)
+                except Exception as e:
+                    fail("index", "finite-only index / reading through the view raised", shape=shape, item=item, error=repr(e))
         for bad in bad_inf:
             item = tuple(0 for _ in shape) + (bad,) + (0,) * (ninf - 1)
             cases += 1
@@ -237,6 +285,145 @@ def section_fault():
         except BaseException as e:  # noqa: BLE001
             fail("fault", "solver-exception scenario crashed", variant=variant, error=repr(e))
 
+    # faults injected into the user callbacks of a whole block diagonalization: the Hamiltonian-term callback (scalar series split by subspace_indices,
+    # block-shaped series used as is), the Sylvester solver and the multiplication of elements, at EVERY invocation index of the undisturbed run,
+    # single and repeated, three exception classes; afterwards every request must return exactly the undisturbed value
+    from pymablock.series import zero as _zero, one as _one
+    from pymablock.block_diagonalization import operator_to_BlockSeries
+    from pymablock.algorithm_parsing import series_computation
+    from pymablock.algorithms import main as _main_algorithm
+    Hs = {0: _np.diag([0.0, 1.0, 5.0, 7.0]),
+          1: _np.array([[1, 2, 3, 1], [2, -1, 1, 2], [3, 1, 2, -1], [1, 2, -1, 1]], dtype=float),
+          2: _np.array([[0, 1, -2, 1], [1, 2, 0, 3], [-2, 0, 1, 1], [1, 3, 1, -2]], dtype=float)}
+    sched = [(nm, (i, j, n)) for n in range(4) for nm, (i, j) in (("H_tilde", (0, 0)), ("U", (0, 1)), ("H_tilde", (1, 1)), ("U_adj", (1, 0)), ("U", (0, 0)))]
+
+    class Inj(Exception):
+        pass
+
+    class InjRT(RuntimeError):
+        pass
+
+    class InjKI(KeyboardInterrupt):
+        pass
+
+    class Run:
+        def __init__(self, variant, fail_at=(), exc=None):
+            self.calls, self.fail_at, self.exc, self.variant = 0, set(fail_at), exc, variant
+            self.out = None
+
+        def tick(self):
+            self.calls += 1
+            if self.calls in self.fail_at:
+                raise self.exc("injected")
+
+        def build(self):
+            v = self.variant
+
+            def term(n):
+                if v in ("scalar-term", "all"):
+                    self.tick()
+                return Hs.get(n, _zero)
+
+            def bterm(i, j, n):
+                if v == "block-term":
+                    self.tick()
+                h = Hs.get(n)
+                if h is None:
+                    return _zero
+                blk = h[2 * i:2 * i + 2, 2 * j:2 * j + 2]
+                return _zero if not blk.any() else blk
+            inner = solve_sylvester_diagonal((_np.array([0.0, 1.0]), _np.array([5.0, 7.0])))
+
+            def solver(Y, index):
+                if v in ("solver", "all"):
+                    self.tick()
+                return inner(Y, index)
+
+            def mul(a, b):
+                if v in ("operator", "all"):
+                    self.tick()
+                return a @ b
+            kw = {}
+            if v in ("solver", "all"):
+                kw["solve_sylvester"] = solver
+            if v == "block-term":
+                H = BlockSeries(eval=bterm, shape=(2, 2), n_infinite=1, name="Hb")
+                outs = block_diagonalize(H, **kw)
+            elif v in ("operator", "all"):
+                # block_diagonalize chooses the multiplication itself; a user-supplied one enters through series_computation, wired as block_diagonalize wires it
+                Hsc = BlockSeries(eval=term, shape=(), n_infinite=1, name="Hs")
+                H = operator_to_BlockSeries(Hsc, name="H", hermitian=True, subspace_indices=[0, 0, 1, 1])
+                scope = {"solve_sylvester": solver, "use_linear_operator": _np.zeros((2, 2), dtype=bool), "two_block_optimized": True,
+                         "commuting_blocks": [True, True]}
+                outd, _ = series_computation({"H": H}, algorithm=_main_algorithm, scope=scope, operator=mul)
+                outs = (outd["H_tilde"], outd["U"], outd["U†"])
+            else:
+                H = BlockSeries(eval=term, shape=(), n_infinite=1, name="Hs")
+                outs = block_diagonalize(H, subspace_indices=[0, 0, 1, 1], **kw)
+            self.out = dict(zip(("H_tilde", "U", "U_adj"), outs))
+
+        def request(self, nm, idx):
+            if self.out is None:
+                self.build()
+            return self.out[nm][idx]
+
+    def same_exact(a, b):
+        if a is _zero or b is _zero or a is _one or b is _one:
+            return a is b
+        return _np.shape(a) == _np.shape(b) and _np.array_equal(_np.asarray(a), _np.asarray(b))
+
+    def chain_has(e, kind):
+        seen = 0
+        while e is not None and seen < 50:
+            if isinstance(e, kind):
+                return True
+            e, seen = (e.__cause__ or e.__context__), seen + 1
+        return False
+
+    for variant in ("scalar-term", "block-term", "solver", "operator", "all"):
+        try:
+            clean = Run(variant)
+            ref3 = {rq: clean.request(*rq) for rq in sched}
+        except BaseException as e:  # noqa: BLE001
+            fail("fault", "undisturbed block diagonalization with instrumented callbacks crashed", variant=variant, error=repr(e))
+            continue
+        total3 = clean.calls
+        if total3 == 0:
+            fail("fault", "vacuity: the instrumented callback was never invoked", variant=variant)
+            continue
+        for exc in (Inj, InjRT, InjKI):
+            points = [(k,) for k in range(1, total3 + 1)] + [(k, k + 1 + (k % 3)) for k in range(1, total3, 3)]
+            for pts in points:
+                cases += 1
+                run = Run(variant, pts, exc)
+                bad = None
+                raised = 0
+                for rq in sched:
+                    for _attempt in range(len(pts) + 1):
+                        try:
+                            val = run.request(*rq)
+                        except BaseException as e:  # noqa: BLE001
+                            if not chain_has(e, exc):
+                                bad = f"a different exception reached the caller: {e!r}"
+                                break
+                            raised += 1
+                            continue
+                        if not same_exact(val, ref3[rq]):
+                            bad = "value after a callback fault differs from the undisturbed computation"
+                        break
+                    else:
+                        bad = "the fault is repeated although the callback no longer raises"
+                    if bad:
+                        fail("fault", bad, variant=variant, exc=exc.__name__, inject_at=list(pts), request=[rq[0], list(rq[1])])
+                        break
+                if not bad and run.out is not None:
+                    for nm, ser in run.out.items():
+                        stale = [k for k, v in ser._data.items() if repr(v) == "pending"]
+                        if stale:
+                            fail("fault", "in-flight marker left behind after a callback fault", variant=variant, series=nm, inject_at=list(pts), keys=stale)
+                if not bad and raised < 1 and max(pts) <= total3 and min(pts) <= total3:
+                    fail("fault", "injected exception did not reach the caller", variant=variant, exc=exc.__name__, inject_at=list(pts))
+
 
 # ------------------------------------------------------------------------------ C18
 def section_product():
@@ -285,7 +472,7 @@ def section_product():
         nf = len(fs)
         total = np.zeros((dimlist[0][i], dimlist[nf][j]), dtype=complex)
         mids = [range(fs[k].shape[1]) for k in range(nf - 1)]
-        orders = list(itertools.product(range(max(n) + 1), repeat=ninf))
+        orders = list(itertools.product(range(max(n, default=0) + 1), repeat=ninf))
         splits = [s for s in itertools.product(*([orders] * nf)) if tuple(map(sum, zip(*s))) == tuple(n)]
         for mid in itertools.product(*mids):
             blocks = (i,) + mid + (j,)
@@ -296,7 +483,7 @@ def section_product():
                 total = total + term
         return total
 
-    for ninf, maxo in ((1, 3), (2, 2)):
+    for ninf, maxo in ((1, 3), (2, 2), (0, 0), (3, 1)):      # (0, 0): series without infinite dimensions (a single element per block)
         for nf in (2, 3):
             for trial in range(3):
                 nbs = [int(rng.integers(1, 3)) for _ in range(nf + 1)]
